@@ -1,5 +1,7 @@
 import ModVerif.AuditCmd
 import ModVerif.Props.C05
 import ModVerif.Tie.Zip
+import ModVerif.Tie.FnZip
 #audit_module ModVerif.Props.C05
 #audit_module ModVerif.Tie.Zip
+#audit_module ModVerif.Tie.FnZip
